@@ -243,7 +243,12 @@ func run(id, tier string) int {
 				app = rlappRace
 			}
 
-			cmd.Env = append(goEnv(), "VERIF_RLAPP="+app, "VERIF_TIER="+tier, "VERIF_STATS="+statsBase, "VERIF_REPLAY_DIR="+replays,
+			raceEnv := "VERIF_CHILD_GORACE="
+			if t.Race && rlappRace != "" {
+				raceEnv += "halt_on_error=0"
+			}
+
+			cmd.Env = append(goEnv(), raceEnv, "VERIF_RLAPP="+app, "VERIF_TIER="+tier, "VERIF_STATS="+statsBase, "VERIF_REPLAY_DIR="+replays,
 				"VERIF_RUN_DIR="+runDir, "VERIF_ROOT="+root, fmt.Sprintf("VERIF_SHARD=%d", shard), fmt.Sprintf("VERIF_SHARDS=%d", shards),
 				fmt.Sprintf("VERIF_SEED=%d", sd))
 
@@ -278,6 +283,10 @@ func run(id, tier string) int {
 
 		if shards <= 0 {
 			shards = 1
+		}
+
+		if total == 0 && t.Race {
+			continue // race-detector runs are thorough only
 		}
 
 		if total == 0 {
